@@ -525,3 +525,34 @@ def gen_const_chain_scenario(rng, tier='quick'):
             st.append(['fill', ('bin', '+', ('bin', '*', ('lab', k), num(2)), num(20)), ('bin', '+', ('lab', k), ('lab', k))])
     return {'cfg': cfg, 'files': [{'name': 'main.asm', 'dir': 'src', 'stmts': st}], 'include_dirs': ['lib'], 'extra_files': [],
             'fault': 'const-chain', 'opts': _opts(rng, cfg)}
+
+
+# ------------------------------------------------------------------------------------------------ beyond 64K
+def gen_wide_space_scenario(rng, tier='quick'):
+    """a 20 or 24 bit address space with lines that lie on, and run across, multiples of $10000 (Intel HEX needs an extended
+    address record there); the image window is a small stretch around the boundary"""
+    bits = rng.choice([20, 24])
+    bank = rng.choice([1, 2]) if bits == 20 else rng.choice([1, 2, 0x12])
+    edge = bank * 0x10000
+    cfg = dict(addr_bits=bits, endian=rng.choice(['little', 'big']), origin=0, page=1, terminator=0, embedded=False,
+               zones=[], consts=[], data=[], syms=[], cli=[])
+    byte = [0x70]
+
+    def data(n):
+        out = []
+        for _ in range(n):
+            byte[0] = (byte[0] + 1) & 0xFF
+            out.append(num(byte[0]))
+        return ['data', 1, out]
+    start = edge - rng.choice([0x18, 0x08, 0x21])
+    st = [['org', num(start), None]]
+    r = rng.random()
+    if r < 0.4:
+        st.append(['fill', num(rng.choice([40, 48, 33])), num(0xC3)])                  # one line across the boundary
+    elif r < 0.7:
+        st += [data(4), ['str', 'cstr', '"', 'across the sixty-four K line, more than one record long']]
+    else:
+        st += [data(3), ['org', num(edge - 2), None], data(4)]                         # two bytes below, two above
+    st += [['org', num(edge + 0x40), None], data(2)]
+    return {'cfg': cfg, 'files': [{'name': 'main.asm', 'dir': 'src', 'stmts': st}], 'include_dirs': ['lib'], 'extra_files': [],
+            'fault': f'wide-space-{bits}', 'opts': {'start': start - 4, 'end': edge + 0x50, 'fill': rng.choice([0, 0xEE])}}
